@@ -168,12 +168,12 @@ Theorem C11_join_pipelined_exactly_once_partial : forall v np ops c, jreach v np
   forall t th, nth_error (jthreads c) t = Some th ->
     match j_op th with
     | JSend _ _ _ =>
-      (cnt (is_deliver t) (jevents c) <= 1)%nat /\
-      (j_pc th = QDone -> cnt (is_deliver t) (jevents c) = 1%nat)
+      (jcnt (jis_deliver t) (jevents c) <= 1)%nat /\
+      (j_pc th = QDone -> jcnt (jis_deliver t) (jevents c) = 1%nat)
     | JCall _ _ =>
-      (cnt (is_deliver t) (jevents c) <= 1)%nat /\
-      (j_pc th = QDone -> (j_out th = ONoSlot /\ cnt (is_deliver t) (jevents c) = 0%nat) \/
-                          (j_out th = ORet /\ cnt (is_deliver t) (jevents c) = 1%nat))
+      (jcnt (jis_deliver t) (jevents c) <= 1)%nat /\
+      (j_pc th = QDone -> (j_out th = ONoSlot /\ jcnt (jis_deliver t) (jevents c) = 0%nat) \/
+                          (j_out th = ORet /\ jcnt (jis_deliver t) (jevents c) = 1%nat))
     | _ => True
     end.
 Proof. exact join_pipelined_exactly_once. Qed.
